@@ -249,6 +249,15 @@ SUBS = [
         nontrivial=nontrivial, classes=classes, n={"quick": 10, "thorough": 200}, essential=["kept"]),
     Sub("other-unrepresentable", check, gen=lambda tier: unrepresentable(), nontrivial=nontrivial, classes=classes,
         n={"quick": 10, "thorough": 200}),
+    # documents of several hundred features (tens of kilobytes): readers that work block-wise or incrementally
+    Sub("big-featureide", check, gen=lambda tier: gen_for("featureide", S.FEATUREIDE, EF.emit_featureide, max_feats=500, min_feats=250),
+        nontrivial=nontrivial, classes=classes, n={"quick": 2, "thorough": 40}, shards={"quick": 8, "thorough": 16}),
+    Sub("big-fama", check, gen=lambda tier: gen_for("fama", S.FAMA, EF.emit_fama, max_feats=500, min_feats=250),
+        nontrivial=nontrivial, classes=classes, n={"quick": 2, "thorough": 40}, shards={"quick": 8, "thorough": 16}),
+    Sub("big-glencoe", check, gen=lambda tier: gen_for("glencoe", S.GLENCOE_3P, EF.emit_glencoe, max_feats=500, min_feats=250),
+        nontrivial=nontrivial, classes=classes, n={"quick": 2, "thorough": 40}, shards={"quick": 8, "thorough": 16}),
+    Sub("big-afm", check, gen=lambda tier: gen_for("afm", S.AFM, EF.emit_afm, max_feats=400, min_feats=200),
+        nontrivial=nontrivial, classes=classes, n={"quick": 2, "thorough": 40}, shards={"quick": 8, "thorough": 16}),
     Sub("glencoe", check, gen=lambda tier: gen_for("glencoe", S.GLENCOE_3P, EF.emit_glencoe), nontrivial=nontrivial,
         classes=classes, n=N,
         essential=["freedom:id-differs-from-name", "freedom:n-ary-term", "freedom:note-absent", "freedom:named-group-as-GENOR"]),
